@@ -63,7 +63,7 @@ def check_int_range(value, bits: int, signed: bool, what: str) -> None:
 class OptionalInt(ctypes.Structure):
     _fields_ = [
         ("type", ctypes.c_uint8),
-        ("value", INTEGER),
+        ("_value", INTEGER),
     ]
 
     _NULL_TYPE = 0x00
@@ -72,16 +72,17 @@ class OptionalInt(ctypes.Structure):
     def __init__(self, value):
         if value is None:
             self.type = self._NULL_TYPE
-            self.value = 0
+            self._value = 0
         else:
             self.type = self._INT_TYPE
-            self.value = value
+            self._value = value
 
+    @property
     def value(self):
         if self.type == self._NULL_TYPE:
             return None
         elif self.type == self._INT_TYPE:
-            return self.value
+            return self._value
         else:
             raise TypeError(f"Unknown type {self.type}")
 
